@@ -514,8 +514,10 @@ def check_metadata_module(ctx):
                         tg.slice, ast.Constant) \
                         and tg.slice.value == 'module':
                     t = ex.expand(node.ast.value, node.id)
-                    ok = T.has_call(t, 'relative_to') or T.has_call(
-                        t, 'sanitize_paths')
+                    # on every path: each alternative of the stored value
+                    # is made relative to the package (or sanitised)
+                    ok = all(T.has_call(a, 'relative_to') or T.has_call(
+                        a, 'sanitize_paths') for a in _leaf_alts(t))
                     detail = fmt_term(t)[:100]
     ctx.ob(rule, 'get_execution_metadata:module', fi.loc(), ok,
            'the module is recorded relative to the package' if ok else
@@ -703,3 +705,17 @@ def _is_path_valued(pa, fi, e, path_roots):
         if r in path_roots:
             return True
     return False
+
+
+def _leaf_alts(t):
+    """alternatives of a term, looking through wrappers such as str(...)
+    whose single argument is a phi"""
+    if t[0] == 'phi':
+        out = []
+        for a in t[1]:
+            out += _leaf_alts(a)
+        return out
+    if t[0] == 'call' and len(t[2]) == 1 and not t[3] and t[1][0] == 'name' \
+            and t[1][1] in ('str', 'repr'):
+        return _leaf_alts(t[2][0])
+    return [t]
